@@ -100,6 +100,13 @@ Theorem C06_symbols_have_one_meaning : code_symbols_unambiguous = true.
 Proof. exact code_symbols_one_meaning. Qed.
 Print Assumptions C06_symbols_have_one_meaning.
 
+(* the two if / elif chains nested in parse_units (re-read from the source on every run): every litre symbol of the label list has
+   a row, every row's space unit cubed is 10^prefix litres (and is the model's base unit for that symbol); every molar symbol has a
+   row whose amount unit per cubed space unit is 10^prefix mol per litre; no row for a symbol that is not listed *)
+Theorem C06_parse_chains_agree : code_chains_ok = true.
+Proof. exact code_chains_agree. Qed.
+Print Assumptions C06_parse_chains_agree.
+
 (* non-vacuity: a concrete conversion computes to the expected number:
    2 km2.h-1 -> m2.s-1  is  2 * 10^6 / 3600 *)
 Example C06_example :
